@@ -281,7 +281,7 @@ class TensorBufferStager(BufferStager):
             raise ValueError(f"Unrecognized serializer: {self.entry.serializer}.")
 
     def _should_copy_cpu_tensor(self) -> bool:
-        if self.entry.serializer == Serializer.BUFFER_PROTOCOL and (
+        if self.entry.serializer == Serializer.BUFFER_PROTOCOL.value and (
             self.is_async_snapshot or not self.tensor.is_contiguous()
         ):
             # During async snapshot, it's not safe to use
@@ -292,7 +292,7 @@ class TensorBufferStager(BufferStager):
             # make a copy. We might as well do it here.
             return True
         if (
-            self.entry.serializer == Serializer.TORCH_SAVE
+            self.entry.serializer == Serializer.TORCH_SAVE.value
             and self.tensor.nelement() != self.tensor.storage().size()
         ):
             # When saving a tensor view, torch.save() saves the underlying
